@@ -26,9 +26,10 @@ PALETTES = [
      "met": {"m1": "m1", "m2": "m2", "m3": "m3", "m4": "m4"},
      "gene": {"g1": "g1", "g2": "g2", "g3": "g3", "g4": "g4"}, "grp": {"grp1": "grp1"},
      "scale": 1.0, "dyadic": True, "sids": True},
-    {"name": "awkward", "rx": {"r1": "R.1", "r2": "a-b", "r3": "2r", "r4": "p:q"},
-     "met": {"m1": "2x.y", "m2": "M-x", "m3": "glc__D_e", "m4": "u/v"},
-     "gene": {"g1": "2x.1", "g2": "b-2", "g3": "for", "g4": "q:r"}, "grp": {"grp1": "my group"},
+    # (non-ASCII letters and digits are identifier characters, too: \u00df, \u00b2, \u03b2, \u00e9, \u00f6)
+    {"name": "awkward", "rx": {"r1": "R.1\u00b2", "r2": "a-\u03b2", "r3": "2r", "r4": "p:q"},
+     "met": {"m1": "2x.y", "m2": "M-\u00df", "m3": "glc__D_e", "m4": "u/v"},
+     "gene": {"g1": "2x.1", "g2": "b-2", "g3": "for", "g4": "q:\u00e9"}, "grp": {"grp1": "my gr\u00f6up"},
      "scale": 0.5, "dyadic": True},
     {"name": "scaled", "rx": {"r1": "R_PGI", "r2": "ACALD", "r3": "Biomass_Ecoli", "r4": "r_0001"},
      "met": {"m1": "M_g6p_c", "m2": "f6p_c", "m3": "glc_e", "m4": "x_e"},
@@ -60,6 +61,24 @@ def _tree_text(t, gmap, top=True):
 # identifiers.org-style annotation values behind the abstract tokens 1..5: single identifiers and
 # lists of identifiers of one provider (one identifier a substring of an earlier one, dots)
 ANNVAL = {1: "1", 2: "2", 3: ["1.1.1.27", "1.1.1.2"], 4: "4", 5: ["21765", "1765", "10108"]}
+
+
+# note values behind the abstract tokens: plain text (1, 2) and what JSON / YAML / dict / pickle must also carry:
+# a nested dictionary, None, a list with None (SBML notes are plain text: not judged there)
+NOTEVAL = {1: "1", 2: "2", 3: {"pmid": "12345", "doi": None}, 4: None, 5: ["in vitro", None]}
+
+
+def _note_token(val):
+    if isinstance(val, str) and val.isdigit():
+        return int(val)
+    for k, v in NOTEVAL.items():
+        if not isinstance(v, str) and type(val) in (type(v), dict if isinstance(v, dict) else type(v)) and val == v:
+            return k
+        if isinstance(v, dict) and isinstance(val, dict) and dict(val) == v:
+            return k
+        if isinstance(v, list) and isinstance(val, (list, tuple)) and list(val) == v:
+            return k
+    return -1           # none of the tokens (compared as such; a wildcard expectation ignores it)
 
 
 def _tol_token(x, what, inexact):
@@ -381,15 +400,40 @@ class ModelDriver:
             for m in terms:
                 self.get_met(model, m)
 
+            # the same equation in another spelling (op.spell): 1 = a metabolite of the model on BOTH sides
+            # (a catalyst: the terms cancel, or add up to the coefficient asked for), 2 = one term split in two
+            spell = op.get("spell", 0)
+            extra = {-1: [], 1: []}       # additional (coefficient, metabolite) terms per side
+            shown = dict(terms)
+            if spell == 2 and any(abs(k) >= 2 for k in terms.values()):
+                m = [m for m in terms if abs(terms[m]) >= 2][0]
+                sgn = -1 if terms[m] < 0 else 1
+                shown[m] = sgn * (abs(terms[m]) - 1)
+                extra[sgn].append((1, m))
+            elif spell in (1, 2):
+                present = [m for m in MET if self.met[m] in model.metabolites]
+                if present:
+                    m = present[0]
+                    k = terms.get(m, 0)
+                    sgn = -1 if k < 0 else 1
+                    if k:
+                        shown[m] = sgn * (abs(k) + 1)
+                        extra[-sgn].append((1, m))
+                    else:
+                        extra[-1].append((1, m))
+                        extra[1].append((1, m))
+
             def side(sign):
                 out = []
-                for m, k in terms.items():
+                for m, k in shown.items():
                     if (k < 0) == (sign < 0):
                         out.append(("%d %s" % (abs(k), self.met[m])) if abs(k) != 1 else self.met[m])
+                for k, m in extra[sign]:
+                    out.append(self.met[m])
                 return " + ".join(out)
             arrow = {"fwd": "-->", "rev": "<--", "both": "<=>"}[op["arrow"]]
             text = "%s %s %s" % (side(-1), arrow, side(1))
-            if any(" " in self.met[m] or "+" in self.met[m] for m in terms):
+            if any(" " in self.met[m] or "+" in self.met[m] for m in list(terms) + [x for v in extra.values() for _, x in v]):
                 raise Skip("identifier not expressible in a reaction string")
             rxn.build_reaction_from_string(text)
             return None
@@ -627,7 +671,7 @@ class ModelDriver:
             elif via == 1:
                 o.annotation = dict(o.annotation, tok=val)
             else:
-                o.notes["tok"] = str(op["v"])
+                o.notes["tok"] = copy.deepcopy(NOTEVAL.get(op["v"], str(op["v"])))
                 o.annotation["tok"] = val
             return None
         if a == "RoundTrip":
@@ -754,7 +798,7 @@ class ModelDriver:
                     ob = lst.get_by_id(conc[x])
                     try:
                         ann[x] = _ann_token(ob.annotation.get("tok", "0"))
-                        note[x] = int(ob.notes.get("tok", "0"))
+                        note[x] = _note_token(ob.notes.get("tok", "0"))
                     except (TypeError, ValueError):
                         inexact.append("ann:%s:bad" % x)
         attr = {x: {"name": 0, "formula": 0, "charge": 99, "subsys": 0} for x in RX + MET + GENE + GRP + ["MODEL"]}
@@ -785,7 +829,7 @@ class ModelDriver:
             note[g] = 0
         try:
             ann["MODEL"] = _ann_token(model.annotation.get("tok", "0"))
-            note["MODEL"] = int(model.notes.get("tok", "0"))
+            note["MODEL"] = _note_token(model.notes.get("tok", "0"))
         except (TypeError, ValueError, AttributeError):
             ann["MODEL"] = note["MODEL"] = 0
             inexact.append("ann:MODEL:bad")
